@@ -276,6 +276,31 @@ def run(ctx, R, tier):
     R.check(ok, "C16-R5", "register|weak-finalizer", "weak registration installs a finalizer that unregisters the id", reg.loc(fin[0]) if fin else reg.loc(),
             "a garbage-collected weakly registered object would stay in the registry as a dead reference")
 
+    # a weak registration ends with the last reference to the object - so nothing in the daemon may keep references it was merely shown: the default handler for
+    # errors in user code sees the exception of every failed call, and an exception holds its traceback, the frames, and in them `self` of the called method. A handler
+    # that files the exception away (history, last-error attribute) keeps the object alive and its id registered for as long as the entry stays
+    eh = ctx.fn("Pyro5.server._default_methodcall_error_handler")
+    params = {a.arg for a in eh.node.args.args + eh.node.args.kwonlyargs}
+    keeps = None
+    for st, t, k in stores_in(eh.node):
+        if isinstance(t, (ast.Attribute, ast.Subscript)) and getattr(st, "value", None) is not None and params & {n.id for n in ast.walk(st.value) if isinstance(n, ast.Name)}:
+            keeps = keeps or st
+    for c in walk_no_nested(eh.node):
+        if not isinstance(c, ast.Call):
+            continue
+        fd = dotted(c.func) or ""
+        if fd.split(".")[0] in ("log", "logging", "repr", "str", "type", "isinstance", "getattr", "hasattr", "print", "warnings", "traceback", "id", "format") or \
+                (isinstance(c.func, ast.Attribute) and c.func.attr in ("format", "join") and isinstance(c.func.value, (ast.Constant, ast.JoinedStr))):
+            continue
+        handed = [a for a in list(c.args) + [kw.value for kw in c.keywords]
+                  if params & {n.id for n in ast.walk(a) if isinstance(n, ast.Name) and not _only_described(a, n)}]
+        if handed:
+            keeps = keeps or c
+    R.check(keeps is None, "C16-R5", "error-handler|keeps-no-reference-to-the-exception", "the default method-call error handler only describes its arguments (log text); it stores none of them",
+            eh.loc(keeps) if keeps is not None else eh.loc(),
+            ("`%s` keeps the exception (or the daemon/socket/method it was given): its traceback holds the frame of the failed method and with it the called object, so a weakly "
+             "registered object is never collected and its id stays registered and callable after the application dropped it" % unparse(keeps, 90)) if keeps is not None else "")
+
     # ---------------------------------------------------------------- R6
     n_reads = 0
     for g in p.functions.values():
@@ -405,10 +430,11 @@ def run(ctx, R, tier):
     # a registered object is found whatever it looks like: every presence test on a value looked up in the registry is an identity test (shared with C08-R4:
     # get_metadata answers the connect handshake - `if obj:` would refuse the connection to a registered object that is empty / falsy)
     from ..report import Rules as _Rules
+    from ..report import run_shared as _run_shared
     from . import c08 as _c08
     R8 = _Rules("C08")
     try:
-        _c08.run(ctx, R8, tier)
+        _run_shared(ctx, _c08, R8, tier)
     except AnalysisError as _shared_x:
         # the other property's own anchors are gone on this tree: its check reports that; what it produced before is still shared
         R.note("obligations shared from C08 are incomplete on this tree: %s" % _shared_x)
@@ -418,3 +444,29 @@ def run(ctx, R, tier):
     for o in shared:
         R.add("C16-R3", "get_metadata|registered-means-not-None", "DaemonObject.get_metadata (the handshake's lookup) treats exactly `None` as unknown: a registered object that is "
               "falsy (an empty container-like object) is still connected to", o.ok, o.loc, o.detail)
+
+    # every uri the daemon hands out (register, uriFor, proxyFor, auto-proxies) is built from the raw id and parsed by core.URI: the id a proxy then asks for is the
+    # registered one only if the parser takes the object part as it stands (shared with C19-R3)
+    from . import c19 as _c19
+    R19 = _Rules("C19")
+    try:
+        _run_shared(ctx, _c19, R19, tier)
+    except AnalysisError as _shared_x:
+        R.note("obligations shared from C19 are incomplete on this tree: %s" % _shared_x)
+    for o in R19.obs:
+        if o.key == "C19-R3|parser|object-part-taken-verbatim":
+            R.add("C16-R3", "uri|names-the-registered-id", o.desc + " (an id such as 'job%41' is reached under that id, not under another one)", o.ok, o.loc, o.detail)
+
+
+def _only_described(expr, name):
+    """is this use of `name` inside `expr` one that only derives text or a plain attribute from it (repr(x), str(x), x.__qualname__, type(x).__name__)"""
+    par = {}
+    for n in ast.walk(expr):
+        for ch in ast.iter_child_nodes(n):
+            par[ch] = n
+    up = par.get(name)
+    if isinstance(up, ast.Call) and isinstance(up.func, ast.Name) and up.func.id in ("repr", "str", "type", "id") and name in up.args:
+        return True
+    if isinstance(up, ast.Attribute) and up.attr in ("__qualname__", "__name__", "__class__", "__module__"):
+        return True
+    return False
